@@ -75,13 +75,13 @@ export class PatchObjectHelper implements Iterator<string> {
 
   next(): IteratorResult<string> {
     let key = this._remainingKeys.shift();
-    if (!key) {
+    if (key === undefined) {
       return {
         done: true,
         value: undefined,
       };
     }
-    if (key && valueIn(key, this._diffKeys)) {
+    if (valueIn(key, this._diffKeys)) {
       let op = this._diffLUT[key].op;
       if (op === 'add') {
         this._currentIsAddition = true;
